@@ -387,6 +387,49 @@ def iocb_history(run, rng, nclients, nservers, nreq):
     run.count("iocb_histories")
 
 
+def both_directions(run, rng):
+    """two stations that are client and server to each other and, as every stack does, both start counting invoke ids at 1:
+    station B has a request #k outstanding at A (A's application thinks about it) while A's own request #k to B - a segmented
+    one, under way - is aborted by A.  The abort concerns A->B #k only: B's request is answered, once, and was executed once"""
+    CLOCK.reset()
+    events = []
+    lan = FaultNet("lan", Plan())
+    a = Stack(lan, 1, events, "A", DirectApp, app_timeout=30000, apduTimeout=3000, apduSegmentTimeout=2000)
+    b = Stack(lan, 2, events, "B", DirectApp, app_timeout=30000, apduTimeout=3000, apduSegmentTimeout=2000)
+    CLOCK.settle()
+    token = 7700 + rng.randrange(100)
+    think = rng.choice([1.0, 2.0])
+    a.app.behaviour[token] = ("ack", rng.choice([0, 5, 50]), think)
+    inv = rng.choice([1, 1, 7, 255])
+    rq = b.cpt_request(a.address, token, 5)
+    rq.apduInvokeID = inv
+    wit = {"class": "both-directions", "invoke_id_used_in_both_directions": inv, "think": think}
+    try:
+        b.send(rq, token)
+        CLOCK.settle()
+        # A's segmented request to B with the same id gets as far as its first segment(s) ...
+        stage = rng.choice(["request", "response"])
+        first = W.npci_build({"der": True, "payload": W.apci_build({"type": W.CONFIRMED, "seg": True, "mor": True, "sa": True, "max_segs": 7, "max_resp": 5,
+                                                                   "invoke": inv, "seq": 0, "win": 4, "service": 18, "payload": b"\x09\x01\x19\x02"})})
+        lan.inject(a.address, b.address, first)
+        CLOCK.drive(duration=0.2, max_steps=200000)
+        # ... and is aborted by A (a client's abort: server bit clear)
+        lan.inject(a.address, b.address, W.npci_build({"payload": W.apci_build({"type": W.ABORT, "srv": False, "invoke": inv, "reason": 0})}))
+        CLOCK.drive(duration=30.0, max_steps=400000)
+    except StepBudgetExceeded as err:
+        run.violation("history-does-not-quiesce", dict(wit, error=str(err)))
+        return
+    run.count("both_direction_cases")
+    got = [e for e in events if e["who"] == "B" and e["ev"] == "confirmation"]
+    execd = [e for e in events if e["who"] == "A" and e["ev"] == "indication" and e.get("token") == token]
+    wit.update(answers=[(round(e["t"] - CLOCK.START, 2), e.get("outcome")) for e in got], executed=len(execd),
+               frames=[(round(f["t"] - CLOCK.START, 2), str(f["src"]), f["octets"][:8]) for f in lan.frames][:12])
+    if len(got) != 1 or got[0].get("outcome") != "complex-ack" or len(execd) != 1:
+        run.violation("abort-of-one-transaction-ended-another-with-the-same-invoke-id-in-the-other-direction", wit)
+        return
+    run.count("confirmations_matched")
+
+
 def inject_forgeries(rng, lan, clients, servers, reqs, events):
     """frames that must be ignored: foreign source, id not live, replay after completion, stray acks/aborts.
     A (source, invoke id) pair that is live for the targeted client is never forged: such a frame would be
@@ -464,6 +507,9 @@ def main():
         run.case(("iocb", run.shard[0], i), sample={"class": "iocb", "clients": nclients, "servers": nservers, "requests_per_client": nreq},
                  sample_key=("iocb", nclients))
         iocb_history(run, rng, nclients, nservers, nreq)
+    for i in range((800 if thorough else 12) // (run.shard[1] if thorough else 1) + 1):
+        run.case(("both-directions", run.shard[0], i), sample={"class": "both-directions"}, sample_key=("both",))
+        both_directions(run, rng)
     for i in range(2 if not thorough else 3):
         if thorough and not run.mine(i):
             continue
